@@ -43,6 +43,9 @@ BX_WHY = {
     'bx:sync': 'no verifier in reach (proc-macro generated code); bounded drip-feed check of the real code',
     'bx:auenc': 'AuEncode::work (float quantisation loop writing through sub-slices of the write window) is not under a Verus '
                 'contract yet; bounded check of the real code: header then big-endian PCM16 for every schedule tried',
+    'bx:il2p': 'Il2pDeframer::work (owned Vec moved through an enum with mem::swap, String-building header parser) is not under a '
+               'Verus contract; bounded check of the real code: same number of headers one-shot and drip-fed on random bits '
+               'with sync tags, never a panic (bits only: a byte > 1 is known finding F11)',
     'bx:dsp': 'floating-point blocks: no verifier here has a float theory and most of these bodies are iterator/FFT code; bounded '
               'differential check of the real code (a roomy run and an adversarial drip-fed run of the same input must give '
               'bit-identical output; one-to-one blocks must deliver each tag once at the same index)',
